@@ -44,7 +44,7 @@ def run(tier, seed):
             ("tut13x3", allrm, 250), ("guix2", {"pool_filter": "copy"}, 150)]
     # generated suites: random setup DAGs with removable states at any depth (vf/parse/gensuite.py)
     plan += [("gen:%d:2" % (seed + 101), None, 16)] if quick else \
-            [("gen:%d:%d" % (seed + 101 + i, 2 + i % 2), None if i % 2 else allrm, 150) for i in range(8)]
+            [("gen:%d:%d" % (seed + 101 + i, 2 + i % 2), None if i % 2 else allrm, 150) for i in range(4)]
     return D.generic_run(PID, tier, seed, plan, make_jobs, signature, describe, explore_plan=D.explore_plan(tier, ['NoC05'], removable=True),
                          rule="randomized schedules on graphs with removable states (tutorial_gui/tutorial_get; every state removable via "
                               "unset_mode=fi; generated suites with removable states at random depths), pool_filter reuse/block/copy; TLC validates every unset and sync request")
